@@ -126,7 +126,7 @@ func checkC12(c *Ctx) {
 				}
 				return false, false
 			}
-			paths, err := core.EnumPaths(disp, core.PathOpts{Assume: assume})
+			paths, err := c.pathsInlined(disp, core.PathOpts{Assume: assume}, isAny(byCID), nil)
 			if err != nil {
 				ru2.Undecided("PINGREQ arm", c.where(disp, disp), err.Error())
 			} else {
@@ -166,7 +166,10 @@ func checkC12(c *Ctx) {
 							cv, ok := v.(*ssa.Call)
 							return ok && core.CallOf(cv).Is(sid)
 						}
-						if (stringsContains(core.Term(x), ".SessionID") && isOwn(y)) || (stringsContains(core.Term(y), ".SessionID") && isOwn(x)) {
+						fromLookup := func(v ssa.Value) bool {
+							return lookup != nil && depReaches(v, func(z ssa.Value) bool { return z == lookup.Value() })
+						}
+						if (fromLookup(x) && isOwn(y)) || (fromLookup(y) && isOwn(x)) {
 							mine = tri{true, cd.Val}
 						}
 					}
